@@ -335,6 +335,14 @@ where
                     if app_est > 0 {
                         c06.push(("denied-but-established-app".into(), format!("node {i}: connection {c} denied by field(s) {by:?} but reported ConnectionEstablished"), wit()));
                     }
+                    // C58 "denies a connection iff some field denies it": the composed verdict is what the swarm acts on, so
+                    // a connection that a field denied and that still becomes established (or is never reported as
+                    // denied) means the derived callback swallowed that field's Err
+                    if app_est > 0 {
+                        c58.push((format!("field-denied-but-composed-verdict-accepted:{pt:?}"), format!("node {i}: field(s) {by:?} denied connection {c} but the derived behaviour let it through (ConnectionEstablished reported)"), wit()));
+                    } else if quiescent && !sync_denied(pt, dial_err[i].get(c)) && !app_err.iter().any(|e| matches!(e, AppEv::OutErr(_, k) | AppEv::InErr(_, k) if k == "Denied")) {
+                        c58.push((format!("field-denied-but-no-denied-error:{pt:?}"), format!("node {i}: field(s) {by:?} denied connection {c} but neither dial() nor a swarm event reported Denied"), wit()));
+                    }
                     for (f, l) in logs.iter().enumerate() {
                         if l.iter().any(|e| matches!(e, BEv::ConnectionEstablished { conn, .. } if conn == c)) {
                             c06.push(("denied-but-established-behaviour".into(), format!("node {i}: connection {c} denied by {by:?} but field {f} saw ConnectionEstablished"), wit()));
@@ -501,4 +509,8 @@ pub fn run_c06(args: &Args) -> i32 {
 }
 pub fn run_c58(args: &Args) -> i32 {
     run_common(args, "C58")
+}
+
+fn sync_denied(pt: Point, dial_result: Option<&String>) -> bool {
+    pt == Point::PendingOutbound && dial_result.map(|s| s.as_str()) == Some("Denied")
 }
